@@ -24,7 +24,7 @@ from fractions import Fraction
 LEVEL = "proof"
 MANIFEST_ENTRY = {
     "category": "proof",
-    "text": "Lean 4 theorems over three separately written executable models of the centre-of-mass code (torch batched calculate_origin, numpy vectorised and looped _set_intensities_com): for every carrier (incl. binary64) the batched result is independent of the batch size and the three paths return the same values; over R each equals the intensity-weighted mean row/column index of the (masked) pattern; a constant fit of constant origins and a PCA plane fit (any null vector of the scatter form) or least-squares fit (any minimiser; instantiated for the modelled _plane/_parabola/_bezier_two families) of origins lying exactly on a plane/surface return that surface; shift_origin_to with integer origin is exactly the circular roll (bilinear weights (1,0,0,0), periodic index). Tied to the code on every run by bit-exact comparison on integer-valued patterns for every batch size, masks, non-square shapes; the two real classes (direct-ptychography origin model, ptychography dataset model incl. preprocess()) are additionally compared with each other on the same datasets (<= 1 float32 ulp).",
+    "text": "Lean 4 theorems over three separately written executable models of the centre-of-mass code (torch batched calculate_origin, numpy vectorised and looped _set_intensities_com): for every carrier (incl. binary64) the batched result is independent of the batch size and the three paths return the same values; over R each equals the intensity-weighted mean row/column index of the (masked) pattern; a constant fit of constant origins and a PCA plane fit (any null vector of the scatter form; unconditional on every scan raster of at least 2x2 positions, plane_exact_raster) or least-squares fit (any minimiser; instantiated for the modelled _plane/_parabola/_bezier_two families) of origins lying exactly on a plane/surface return that surface; shift_origin_to with integer origin is exactly the circular roll (bilinear weights (1,0,0,0), periodic index). Tied to the code on every run by bit-exact comparison on integer-valued patterns for every batch size, masks, non-square shapes; the two real classes (direct-ptychography origin model, ptychography dataset model incl. preprocess()) are additionally compared with each other on the same datasets (<= 1 float32 ulp).",
     "note": "Proved: batch/path independence, COM = weighted mean, constant/plane exactness, integer shift = roll, all on the model. Measured only: torch.linalg.eigh and scipy curve_fit reach the fitted surface to float tolerance (PCA 5e-4 rel. float32, curve_fit 1e-6), grid_sample un-normalisation in float32 (1e-5*max). The curve_fit variants plane/parabola/bezier_two are modelled (surfaceF), covered in Lean by lsq_minimiser_exact / lsq_variants_exact (any least-squares minimiser reproduces data lying on the family) and exercised on exact surfaces with mask=None, all-True and partial masks. Patterns with zero total (masked) intensity are outside the property (positive intensities).",
     "technique": "Lean 4 proof (list induction, field algebra over R, floor/emod arithmetic) + exact model-vs-implementation correspondence",
 }
